@@ -133,7 +133,10 @@ fn seq_relation(last: u64, n: u64) -> &'static str {
 fn mhash(peer: &[u8; 32], n: u64, salt: u8) -> [u8; 32] {
     let mut h = blake3::Hasher::new();
     h.update(peer);
-    h.update(&n.to_le_bytes());
+    // salt 7: one message hash reused for every number of the peer (as a client resending one payload would)
+    if salt != 7 {
+        h.update(&n.to_le_bytes());
+    }
     h.update(&[salt]);
     *h.finalize().as_bytes()
 }
@@ -253,6 +256,8 @@ fn pick_salt(rng: &mut Rng, p: &PeerM, n: u64) -> (u8, &'static str) {
             Some(s) => ((s + 1 + rng.below(3) as u8) % 4, "other-hash"),
             None => (rng.below(4) as u8, "any-hash"),
         }
+    } else if rng.chance(0.15) {
+        (7, "new-reused-payload-hash")
     } else {
         (rng.below(4) as u8, "new")
     }
@@ -836,7 +841,6 @@ async fn op_reload(mon: &Monitor, rng: &mut Rng, w: &mut World, mid_ops: usize) 
                 mon.count(if bytes.is_empty() { "observed.file-empty-at-reload" } else { "observed.file-torn-at-reload" }, 1);
                 if t0.elapsed() > Duration::from_secs(4) {
                     mon.extra("reload_error_example", json!({"error": e, "file_len": bytes.len(), "accepted_before_stop": fin}));
-                    eprintln!("DEBUG unreadable: meta={:?} gen={} floor_known={floor_known} fin={fin:?}", std::fs::metadata(&w.path).map(|m| m.len()), w.gen);
                     break None;
                 }
                 tokio::time::sleep(Duration::from_millis(10)).await;
@@ -996,7 +1000,7 @@ fn main() {
     mon.set_rule("case = one submission (validate_sequence or one batch_update entry), one race of T tasks on one peer, or one reload check; non-trivial when the peer already has accepted numbers (submission), when >=1 number is submitted by >=2 racers (race), or when numbers were accepted before the checkpoint (reload); distinct by (api, classification, relation of n to last, hash relation, timestamp class, reload generation) / (race pattern, width class, classes seen, generation) / (generation, proven-sync floor, tail lost, history > 1000)");
     mon.assume("wall-clock seconds read before and after batch_update bracket the library's own reading; entries whose timestamp class depends on which second was read are accepted either way and counted");
     mon.assume("a sync is known complete when persistence_ops advanced by 2 since the checkpoint (the first may have snapshotted earlier); stop_sync_task cannot recall a file write already under way, so the store is reopened from a copy of the file at a new path (one path per generation) and a file caught empty or torn is re-read, not judged");
-    let per_shard = mon.by_tier(26u64, 420);
+    let per_shard = mon.by_tier(80u64, 420);
     let workers = 3;
     vkit::run_shards(mon.shards(), mon.seed, |_i, mut rng| {
         let rt = tokio::runtime::Builder::new_multi_thread().worker_threads(workers).enable_all().build().expect("runtime");
